@@ -8,7 +8,9 @@ PROP = dict(
                    "brace-free replacements no bound is needed; for every structured tag (literals, placeholders nested in keys and defaults to any depth, "
                    "repetition) with brace-free replacements the result is the inner-first substitution, where present = formatted value and absent (nil, null, "
                    "empty map, empty list) = the default. The model (scanner, viper lookup, presence test, default normalisation, loop) is tied to the real "
-                   "configQuoteAwarePostProcessors by a differential run on ~18 000 (quick) generated tag x configuration cases per run, plus independent oracles.",
+                   "configQuoteAwarePostProcessors by a differential run on ~20 000 (quick) generated tag x configuration cases per run, plus independent oracles "
+                   "(watchdog, no placeholder left, the harness's own substitution - also through configured values that carry placeholders themselves: repeated "
+                   "indirect keys and diamonds must resolve, only a key met again on its own chain is circular -, end to end through Run).",
         level_note="Modelled, not verified: Go regexp (leftmost-first) for the fixed pattern, strings.Replace/SplitN, viper.Get/AllSettings path lookup, "
                    "strconv2.ParseAny/FormatAny on the default text, json.Marshal and %v of configured values. Defaults that are slice/map literals or numbers "
                    "with more than 15 significant digits are left unmodelled (explicit outcome; such cases are run and judged by the oracles only, and counted).",
@@ -18,7 +20,12 @@ PROP = dict(
              "values containing placeholders - chains, self and mutual reference, growth - or empty or unrelated). Tags: 75% from the grammar (literals over "
              "letters digits space $ : , ' \" . - _ #, 0-4 placeholders, nesting depth 0-3 in keys and defaults, present / absent / upper-case / list-index / "
              "dotted keys, defaults plain, quoted, bool-like, number-like, bracketed, empty), 25% malformed (unbalanced braces, `${` without `}`). A tenth also "
-             "runs end to end through app.Run. A case is non-trivial when the tag contains a placeholder; distinct = distinct scenario lines",
+             "runs end to end through app.Run. After the main stream n/6 groups of INDIRECT placeholders: a configuration designed in levels (leaf scalars, some absent; "
+             "middle keys whose value is a text with placeholders for leaf keys; top keys over middle keys; keys at top level or inside a nested map) and a tag that "
+             "reaches one placeholder-bearing value at least twice - by repetition, through two different keys (a diamond), inside a default, inside another "
+             "placeholder's key, inside one value, one level deeper - with/without defaults and upper-case keys, each under the designed and a mutated "
+             "configuration; the substitution oracle follows such values (signature placeholder-indirect; a key met again on its own chain is circular "
+             "and left to the watchdog oracle). A case is non-trivial when the tag contains a placeholder; distinct = distinct scenario lines",
         trusted_base=COMMON_TB + ["Go regexp, strings.Replace/SplitN, viper v1.19 Get/AllSettings, strconv2 v0.0.2 ParseAny/FormatAny, encoding/json and fmt %v as modelled in "
                                   "Ioc.Placeholder (validated by the correspondence)",
                                   "the facts translator's reading of maxReplaceRounds (Facts.replaceBound)"],
